@@ -165,6 +165,7 @@ type c01Cred struct {
 	Ambiguous  bool      `json:"ambiguous,omitempty"`  // the statement does not pin down whether it is valid
 	Producible bool      `json:"producible,omitempty"` // a real browser / API client produces exactly this request: the converse is asserted
 	Complexity int       `json:"-"`
+	Ext        bool      `json:"-"` // added by the second part (c01_ext_test.go)
 }
 
 type c01Model struct {
@@ -270,14 +271,18 @@ func (m *c01Model) authorised(id *c01Ident) bool {
 
 // access: served <=> bypass or (credential valid and source enabled and authorised);
 // valid+enabled but not authorised => denied; everything else => login prompt.
-func (m *c01Model) access(method, path, remote string, cred *c01Cred) (decision string, viaBypass bool, ident *c01Ident) {
+//
+// With several credentials on one request the statement does not say which one counts: served is
+// admissible as soon as one of them is valid, enabled and authorised (and passes the restriction the
+// auth-only endpoint was given in its query); if none is, the request must not be served.
+func (m *c01Model) access(method, path, remote string, cred *c01Cred, ep *c01Endpoint) (decision string, viaBypass bool, ident *c01Ident) {
 	decision = "login"
 	for i := range cred.Parts {
 		p := &cred.Parts[i]
 		if !p.Verifies || !m.enabled(p.Source) {
 			continue
 		}
-		if m.authorised(p.Ident) {
+		if m.authorised(p.Ident) && ep.restricted(p.Ident) == "" {
 			decision, ident = "served", p.Ident
 			break
 		}
@@ -314,6 +319,11 @@ type c01Endpoint struct {
 	// Kind: proxied (upstream resource), auth (auth-only endpoint), userinfo, own (any other
 	// endpoint the proxy answers itself; only the negative observables apply)
 	Kind string `json:"kind"`
+	// the documented query parameters of the auth-only endpoint that narrow who is let through
+	// (docs/features/endpoints.md): comma separated lists of allowed groups / e-mails / e-mail domains
+	Groups  []string `json:"allowed_groups,omitempty"`
+	Emails  []string `json:"allowed_emails,omitempty"`
+	Domains []string `json:"allowed_email_domains,omitempty"`
 }
 
 var c01Endpoints = []c01Endpoint{
@@ -321,6 +331,11 @@ var c01Endpoints = []c01Endpoint{
 	{Name: "skip-path", Target: "/skip/x", Kind: "proxied"},
 	{Name: "api-path", Target: "/api/data", Kind: "proxied"},
 	{Name: "auth", Target: "/oauth2/auth", Kind: "auth"},
+	// auth-only endpoint with the documented restrictions in the query (see c01_ext_test.go: restricted)
+	{Name: "auth-groups-staff", Target: "/oauth2/auth?allowed_groups=staff", Kind: "auth", Groups: []string{"staff"}},
+	{Name: "auth-groups-guests-or-nosuch", Target: "/oauth2/auth?allowed_groups=nosuch,guests", Kind: "auth", Groups: []string{"nosuch", "guests"}},
+	{Name: "auth-emails-bob", Target: "/oauth2/auth?allowed_emails=bob@other.org", Kind: "auth", Emails: []string{"bob@other.org"}},
+	{Name: "auth-domains-example.com", Target: "/oauth2/auth?allowed_email_domains=example.com", Kind: "auth", Domains: []string{"example.com"}},
 	{Name: "userinfo", Target: "/oauth2/userinfo", Kind: "userinfo"},
 	{Name: "sign_out", Target: "/oauth2/sign_out", Kind: "own"},
 	{Name: "start", Target: "/oauth2/start", Kind: "own"},
@@ -653,6 +668,12 @@ func (e *c01Env) restore() bool {
 	same := len(keys) == len(e.snapKeys)
 	for i := 0; same && i < len(keys); i++ {
 		same = keys[i] == e.snapKeys[i]
+		if same {
+			// (a form login or a refresh by a request that carries a valid ticket overwrites the entry
+			// under that ticket's key: same keys, another session)
+			v, _ := e.redis.M.Get(keys[i])
+			same = v == e.snap[keys[i]].v
+		}
 	}
 	if same {
 		return false
@@ -673,6 +694,9 @@ type c01World struct {
 	m     *c01Model
 	px    *Proxy
 	creds []*c01Cred
+	// oddFull: the further methods run on the full request alphabet (thorough tier, configurations of
+	// the orthogonal sub-product); elsewhere on the reduced one
+	oddFull bool
 }
 
 func c01Str(s string) *string { return &s }
@@ -963,6 +987,11 @@ func (e *c01Env) build(ref c01CfgRef) (w *c01World, err error) {
 	add(&c01Cred{Name: "combo-duplicate-cookie-tampered-first", Family: "combination", Cookie: c01Header(tampered) + "; " + c01Header(valid),
 		Parts: []c01Part{{Source: "cookie", Verifies: false, Ident: c01Idents["alice"], Why: "one character substituted"}, validPart}})
 
+	// further combinations and the ticket whose store entry belongs to another session (c01_ext_test.go)
+	if err := e.extraCreds(w, add, open, valid, expired); err != nil {
+		return nil, err
+	}
+
 	if k.Store == "redis" {
 		e.snapshot()
 	}
@@ -994,10 +1023,17 @@ var c01SignInRE = regexp.MustCompile(`<form[^>]*action="/oauth2/start"|<form[^>]
 func (e *c01Env) observe(w *c01World, r *c01Req, cred *c01Cred) c01Obs {
 	e.up.Take()
 	resp := world.Serve(w.px.H, r.build(cred))
-	o := c01Obs{Status: resp.Status, Hits: len(e.up.Take())}
+	hits := len(e.up.Take())
 	if w.k.Store == "redis" {
 		e.restore()
 	}
+	return c01Classify(resp, hits)
+}
+
+// c01Classify turns a response (and the number of requests the upstream saw meanwhile) into the
+// observables of the property.
+func c01Classify(resp *world.Resp, hits int) c01Obs {
+	o := c01Obs{Status: resp.Status, Hits: hits}
 	if resp.Panic != nil {
 		o.Panic = fmt.Sprint(resp.Panic)
 	}
@@ -1071,14 +1107,23 @@ type c01Verdict struct {
 	Ident    *c01Ident // identity of the valid, enabled, authorised credential the request carries (nil if none)
 	Fail     string    // failing observable ("" = conforms)
 	Msg      string
+	// Open: the statement leaves the expectation of this case open (both answers admissible): counted
+	// as ambiguous, never an alarm
+	Open string
 }
 
 // judge compares one observation with the reference decision.
 func (w *c01World) judge(r *c01Req, cred *c01Cred, o c01Obs) c01Verdict {
 	path := pathOf(r.EP.Target)
-	dec, via, ident := w.m.access(r.Method, path, r.Remote, cred)
+	dec, via, ident := w.m.access(r.Method, path, r.Remote, cred, r.EP)
 	v := c01Verdict{Decision: dec, Bypass: via, Ident: ident}
 	if cred.Ambiguous && !via {
+		return v
+	}
+	if up := strings.ToUpper(r.Method); up != r.Method && w.m.bypass(up, path, r.Remote) != via {
+		// method tokens are case-sensitive (RFC 9110 9.1), but whether a rule bound to GET covers a
+		// request whose method is spelled "get" is not said anywhere
+		v.Open = "method-case-vs-bypass-rule"
 		return v
 	}
 	allowed := dec == "served"
@@ -1105,7 +1150,13 @@ func (w *c01World) judge(r *c01Req, cred *c01Cred, o c01Obs) c01Verdict {
 		return v
 	}
 	// converse, for requests real clients produce
-	if !cred.Producible {
+	if !cred.Producible || !c01Producible(r.Method) {
+		return v
+	}
+	if via && w.m.restrictedOut(r.EP, cred) {
+		// the request matches a bypass AND carries a valid credential that the restriction in the
+		// auth-only endpoint's query excludes: which of the two prevails is open
+		v.Open = "bypass-vs-auth-query-restriction"
 		return v
 	}
 	switch r.EP.Kind {
@@ -1153,16 +1204,25 @@ func (e *c01Env) runConfig(w *c01World, only *c01Case) (lines []string) {
 	c := e.c
 	for ei := range c01Endpoints {
 		ep := &c01Endpoints[ei]
-		for _, method := range c01Methods {
+		for _, method := range c01AllMethods() {
+			// the methods beyond GET/POST/OPTIONS run on a reduced request alphabet in the quick tier
+			// (c01_ext_test.go); the credential-less request of every cell is always there
+			odd := c01OddMethod(method)
 			for _, remote := range c01Remotes {
 				for _, accept := range c01Accepts {
 					r := &c01Req{EP: ep, Method: method, Remote: remote, Accept: accept}
 					if only != nil && (only.Endpoint != ep.Name || only.Method != method || only.Remote != remote || only.Accept != accept) {
 						continue
 					}
+					if only == nil && ((odd && !w.oddFull && w.skipOddCell(remote, accept)) || (c.Quick() && ep.hasRestriction() && accept != c01Accepts[0])) {
+						continue
+					}
 					baseline := "" // failing observable of the credential-less request of this cell
 					for ci, cred := range w.creds {
 						if only != nil && ci != 0 && only.Cred != nil && only.Cred.Name != cred.Name {
+							continue
+						}
+						if odd && only == nil && !w.oddFull && ci != 0 && !c01OddCred(cred) {
 							continue
 						}
 						o := e.observe(w, r, cred)
@@ -1222,6 +1282,14 @@ func (m *c01Model) key(fail string, ep *c01Endpoint, cred *c01Cred, baseline str
 	// a credential was honoured: which step let it through?
 	disabled := ""
 	for _, p := range cred.Parts {
+		if p.Verifies && m.enabled(p.Source) && m.authorised(p.Ident) {
+			if why := ep.restricted(p.Ident); why != "" {
+				// it passes the proxy's own rules: the restriction in the endpoint's query is what failed
+				return "C01/honoured-despite-auth-query:" + why + ":" + p.Source
+			}
+		}
+	}
+	for _, p := range cred.Parts {
 		if p.Verifies && m.enabled(p.Source) {
 			// it verifies and its source is on: the authorisation rule is what failed
 			return "C01/honoured-unauthorised:" + m.k.Authz + "-rule:" + p.Source
@@ -1243,7 +1311,11 @@ func (e *c01Env) record(w *c01World, r *c01Req, cred *c01Cred, o c01Obs, v c01Ve
 	if cred.Family != "none" || v.Bypass {
 		c.Distinct("distinct_nontrivial", caseKey)
 	}
+	e.recordExt(w, r, cred, o, v)
 	switch {
+	case v.Open != "":
+		c.Inc("ambiguous")
+		c.Inc("ambiguous:" + v.Open)
 	case cred.Ambiguous && !v.Bypass:
 		c.Inc("ambiguous")
 		if o.Hits > 0 || o.Status == 202 || o.Ident != "" {
@@ -1283,7 +1355,7 @@ func (e *c01Env) record(w *c01World, r *c01Req, cred *c01Cred, o c01Obs, v c01Ve
 		c.Inc("panics")
 		c.Note("panic (C19's subject, counted only): %s on %s %s credential %s", o.Panic, r.Method, r.EP.Target, cred.Name)
 	}
-	if cred.Producible && v.Decision == "served" && r.EP.Kind != "own" {
+	if cred.Producible && c01Producible(r.Method) && v.Open == "" && v.Decision == "served" && r.EP.Kind != "own" {
 		c.Inc("converse_checked")
 	}
 	c.Distinct("distinct_outcomes", fmt.Sprintf("%s|%s|%v|%s|%v|%v|%v", r.EP.Kind, v.Decision, v.Bypass, o.Class, o.Hits > 0, o.SessionCookie, o.Ident != ""))
@@ -1380,6 +1452,10 @@ func c01Run(c *Ctx) {
 	defer e.close()
 	var credNames []string
 	selfTested := false
+	subProduct := map[int]bool{}
+	for _, ref := range c01Configs(true) {
+		subProduct[ref.Idx] = true
+	}
 	for i, ref := range cfgs {
 		if !c.Mine(i) {
 			continue
@@ -1414,6 +1490,10 @@ func c01Run(c *Ctx) {
 			w = w2
 			c.Inc("determinism_selftests")
 		}
+		w.oddFull = !c.Quick() && subProduct[ref.Idx]
+		if w.oddFull {
+			c.Inc("configurations_with_further_methods_on_full_alphabet")
+		}
 		c.Inc("configurations")
 		c.Inc("store:" + ref.K.Store)
 		if len(w.creds) > len(credNames) {
@@ -1424,13 +1504,15 @@ func c01Run(c *Ctx) {
 		}
 		e.runConfig(w, nil)
 	}
+	// credential states around refresh (own configurations, one fresh world per request)
+	c01Refresh(c, e)
 	world.ResetClock()
 	if c.Shard == 0 {
 		c.Info["alphabet"] = map[string]any{
 			"stores": c01Stores, "bypass": c01Bypasses, "credential_sources": c01Sources, "authorisation": c01Authzs, "unauthenticated_mode": c01Modes,
 			"configurations_in_tier": len(cfgs), "configuration_value_pairs_covered": fmt.Sprintf("%d/%d", cov, total),
-			"endpoints": len(c01Endpoints), "methods": c01Methods, "remote_addresses": c01Remotes, "accept": c01Accepts,
-			"credential_states": credNames, "requests_per_configuration_max": len(c01Endpoints) * len(c01Methods) * len(c01Remotes) * len(c01Accepts) * len(credNames),
+			"endpoints": len(c01Endpoints), "methods": c01Methods, "further_methods": c01OddMethods, "further_methods_quick_credentials": len(c01OddCreds), "remote_addresses": c01Remotes, "accept": c01Accepts,
+			"credential_states": credNames, "requests_per_configuration_max": len(c01Endpoints) * len(c01AllMethods()) * len(c01Remotes) * len(c01Accepts) * len(credNames),
 		}
 	}
 }
@@ -1449,7 +1531,7 @@ func init() {
 	register(&checkDef{
 		id:    "C01",
 		level: "exploration",
-		rule:  "product configurations (store x bypass kind x credential sources x authorisation rule x unauthenticated mode; thorough: full product, quick: orthogonal sub-product covering every pair of values) x 17 endpoint classes x {GET,POST,OPTIONS} x {trusted,untrusted} remote address x Accept {html,json} x credential states (none; sessions obtained by real logins: valid, valid-but-unauthorised, form login, expired by advancing the clock, expired with the store entry kept, store entry deleted, issued in the future; forged: one character substituted in value/timestamp/signature, other cookie secret, CSRF cookie under the session name, cookie of the other store kind; bearer tokens valid / other key / alg none / HS256-with-public-key / wrong issuer / second issuer (valid only where listed as extra issuer with its audience; main-key and audience mix-ups) / wrong audience / expired / unverified e-mail / inside Basic; htpasswd Basic valid / wrong / empty password / unknown user; malformed Authorization; combinations), every request through ServeHTTP against an access-decision function written from the statement; observables: upstream log, 202, userinfo identity and identity strings anywhere in the response, session Set-Cookie, response class; non-trivial = the request carries a credential or matches a bypass",
+		rule:  "product configurations (store x bypass kind x credential sources x authorisation rule x unauthenticated mode; thorough: full product, quick: orthogonal sub-product covering every pair of values) x 21 endpoint classes (incl. the auth-only endpoint with an allowed_groups / allowed_emails / allowed_email_domains query) x {GET,POST,OPTIONS} and 9 further methods (HEAD, PUT, DELETE, PATCH, TRACE, CONNECT, PROPFIND, M-SEARCH, lower-case get; on the full request alphabet in the thorough tier for the configurations of the orthogonal sub-product, elsewhere with 12 credential states, Accept html, the trusted address only where trusted networks are configured) x {trusted,untrusted} remote address x Accept {html,json} x credential states (none; sessions obtained by real logins: valid, valid-but-unauthorised, form login, expired by advancing the clock, expired with the store entry kept, store entry deleted, issued in the future; forged: one character substituted in value/timestamp/signature, other cookie secret, CSRF cookie under the session name, cookie of the other store kind; bearer tokens valid / other key / alg none / HS256-with-public-key / wrong issuer / second issuer (valid only where listed as extra issuer with its audience; main-key and audience mix-ups) / wrong audience / expired / unverified e-mail / inside Basic; htpasswd Basic valid / wrong / empty password / unknown user; malformed Authorization; a ticket whose store entry holds another user's session; combinations of two credentials on one request: invalid cookie + valid bearer, cookie and bearer of differently authorised users both ways, valid cookie + malformed Authorization, cookie + htpasswd Basic, two session cookies of one name in both orders), every request through ServeHTTP against an access-decision function written from the statement; observables: upstream log, 202, userinfo identity and identity strings anywhere in the response, session Set-Cookie, response class; non-trivial = the request carries a credential or matches a bypass. Second product (one fresh world per request): session cookie of a real login x {cookie, Redis} x {OIDC, provider with validate-url} x {younger than cookie-refresh, older, older and past the session's own expiry} x refresh grant {succeeds, invalid_grant, 500, no refresh token, ID token signed with another key, not implemented} x 4 endpoints x methods; a session whose refresh failed and that no longer validates must be refused (also when the same cookie, the browser's jar after the refusal, or the cookie lines of the refusal itself are presented next), a refreshed one served",
 		assumptions: []string{
 			"'valid' is read as in DESIGN Appendix B: verifies, its source is enabled and the identity passes the e-mail / group rules of the proxy (the proxy itself calls a session failing them invalid); serving a verified but unauthorised credential is reported here although C08 owns the rules themselves",
 			"a session cookie issued by a proxy with the same cookie secret and the same store counts as issued by this proxy (that is how a user who is no longer authorised holds a valid session after a rule change)",
@@ -1457,13 +1539,18 @@ func init() {
 			"response classes: sign-in page = body with the sign-in/login form of the proxy (any status), redirect to the identity provider = 3xx to the authorisation endpoint, 401, 403; checked on upstream paths, /oauth2/auth and /oauth2/userinfo; on the proxy's other endpoints (start, sign_in, sign_out, callback, static, robots, ping, ready, unknown path under the prefix) only the negative observables apply",
 			"a request matching a bypass may show the identity of whatever session it carries (the statement allows it); counted as bypass_identity_without_authorised_credential when the request carries no valid, authorised credential",
 			"the converse (served) is asserted only for requests a browser or API client produces: no credential with a bypass, cookies obtained by login, bearer token as Bearer or as Basic user name, htpasswd Basic",
-			"cookie-refresh is 0 (refresh and provider-side re-validation are C12's subject); bypass matching details are C15's subject: bypass paths carry no query string",
+			"in the first product cookie-refresh is 0; the states around refresh have their own product (interleavings of refreshing requests are C12's subject, the provider's answers C14's); bypass matching details are C15's subject: bypass paths carry no query string",
+			"several credentials on one request: the statement does not say which one counts; served is admissible iff one of them verifies, its source is enabled and it is authorised (counted as combination_precedence_open where the credentials alone would fare differently), never demanded",
+			"the query of the auth-only endpoint (docs/features/endpoints.md) narrows 'authorised': 202 for an identity the query excludes is reported; a request that matches a bypass and carries an excluded identity is open (counted), so is a lower-case 'get' against a rule bound to GET",
+			"the converse is asserted for the methods browsers send (GET, POST, OPTIONS, HEAD, PUT, DELETE, PATCH), not for TRACE, CONNECT, WebDAV methods or 'get'",
+			"refresh failed but the old tokens still validate (invalid_grant, 500, unverifiable ID token in the answer): open, counted; no refresh token / refresh not implemented and the session validates: still valid, served",
+			"a refusal that carries a live session cookie line followed by its deletion is reported only if that cookie demonstrably works when presented (or survives in a browser's jar)",
 			"Redis contents are restored after every request that changed them (sign-out, clear-on-denied, form login) so that all requests of a configuration see the same store",
 		},
 		shards: func(tier string) int { return 16 },
 		run:    c01Run,
 		post: func(c *Ctx) {
-			for _, name := range c01MustSee {
+			for _, name := range append(append([]string{}, c01MustSee...), c01ExtMustSee()...) {
 				if c.Counters[name] == 0 {
 					c.Error("vacuous: %q never occurred", name)
 				}
@@ -1476,6 +1563,10 @@ func init() {
 			var cr0 c01ConcReplay
 			if json.Unmarshal(raw, &cr0) == nil && cr0.Kind == "concurrent-requests" {
 				return c01ConcReplayOne(c, cr0)
+			}
+			var rc c01RefCase
+			if json.Unmarshal(raw, &rc) == nil && rc.State.Store != "" {
+				return c01RefReplay(c, rc)
 			}
 			var cs c01Case
 			if err := json.Unmarshal(raw, &cs); err != nil || cs.Cfg.Store == "" {
